@@ -961,6 +961,7 @@ func runC17(c *Ctx) {
 		})
 		c.check(sizeOK && nameOK, "R5", "long name size and name", p.Pos(rl.Pos()), "dirent.Size(), dirent.Name()", "the long name's size or name does not come from the entry")
 		checkOwnerSourcesAgree(c, "R6")
+		checkLongNameClock(c, "R5")
 	}
 }
 
@@ -1096,4 +1097,45 @@ func checkSetstatTargetsAndOrder(c *Ctx, rule string) {
 		c.check(okOrder, rule, short+" sets the owner before the mode", p.Pos(fn.Pos()), "Chown, then Chmod",
 			short+" applies Chmod before Chown: chown(2) clears set-user-ID/set-group-ID on a regular file, so a request carrying PERMISSIONS 04755 together with UIDGID ends with mode 0755 although the status is OK")
 	}
+}
+
+// checkLongNameClock (C17.R5): the time column of the long name is built with time.Format layouts; the structured
+// mtime is a 24-hour instant, so a layout with a 12-hour clock ("03", "3", "PM") shows another time of day for every
+// file modified after noon.
+func checkLongNameClock(c *Ctx, rule string) {
+	p := c.P
+	fn := p.Func("runLs")
+	if fn == nil {
+		c.missing(rule, "runLs")
+		return
+	}
+	n := 0
+	var consts []string
+	eachInstr(fn, func(in ssa.Instruction) {
+		cc := callOf(in)
+		if cc == nil || calleeName(cc) != "Format" {
+			return
+		}
+		n++
+		for _, a := range cc.Args {
+			for _, l := range leavesOf(a) {
+				if s, ok := constString(l.V); ok {
+					consts = append(consts, s)
+				}
+			}
+		}
+	})
+	bad := ""
+	hasClock := false
+	for _, s := range consts {
+		if strings.Contains(s, "15") {
+			hasClock = true
+		}
+		t := strings.ReplaceAll(s, "2006", "")
+		if strings.Contains(t, "03") || strings.Contains(t, "PM") || strings.Contains(t, "pm") || strings.Contains(t, "3:04") && !strings.Contains(t, "15:04") {
+			bad = s
+		}
+	}
+	c.check(n >= 1 && bad == "" && hasClock, rule, "long name shows the modification time on a 24-hour clock", p.Pos(fn.Pos()), "layouts use 15:04",
+		fmt.Sprintf("the long name formats the modification time with layout %q (12-hour clock, or no hour at all): entries modified after noon show a time that differs from their mtime attribute", bad))
 }
